@@ -183,6 +183,10 @@ def run(ctx: Ctx, env):
                 if p.outcome != "return":
                     continue
                 t = T.norm(p.value)
+                node = p.entry["args"][1] if len(p.entry.get("args", [])) > 1 else None
+                left = node.fields.get("left") if isinstance(node, NodeV) else None
+                if isinstance(left, NodeV) and left.kinds == {"Null"} and d in ("Eq", "NotEq"):
+                    continue  # `null eq x` is legitimately built as x == null(); checked by rule 6
                 if t[0] == "call" and T.is_visit(t[1], "node.comparator") and len(t[2]) == 2:
                     outs.add((_mentions(t[2][0], "node.left") and not _mentions(t[2][0], "node.right"),
                               _mentions(t[2][1], "node.right") and not _mentions(t[2][1], "node.left")))
